@@ -4,6 +4,7 @@ left over - through the *real* registries, header codecs and message codecs (CRC
 contracts/c06_crc.py).  Representative message kinds of both generations incl. both wrappers; the general
 statement is the composition of the per-class codec contracts with the _write / _read_one_message contracts.
 """
+from pyvc.values import unmodelled as _unmodelled  # noqa: E402
 from pyvc import aio, sym
 from pyvc.sym import And, Or, Not, Implies
 from pyvc.vc import oset
@@ -49,7 +50,7 @@ class FrameReader:
                     return out
                 return aio.Awaitable("readexactly", run)
             return Builtin("reader.readexactly", readexactly)
-        raise it.exc("AttributeError", name)
+        raise _unmodelled(self, name)
 
 
 def messages(h, kind):
